@@ -61,11 +61,48 @@ DigChars(d) == IF d = <<>> THEN <<48>> ELSE [i \in 1..Len(d) |-> d[i] + 48]
 RECURSIVE Span(_, _)            \* first index >= i that is not a decimal digit
 Span(s, i) == IF i <= Len(s) /\ IsDig(s[i]) THEN Span(s, i + 1) ELSE i
 
+Blank(c) == c \in {9, 10, 13, 32}        \* JSON white space
 RECURSIVE TrimL(_)
-TrimL(s) == IF s # <<>> /\ s[1] = 32 THEN TrimL(Tail(s)) ELSE s
+TrimL(s) == IF s # <<>> /\ Blank(s[1]) THEN TrimL(Tail(s)) ELSE s
 RECURSIVE TrimR(_)
-TrimR(s) == IF s # <<>> /\ s[Len(s)] = 32 THEN TrimR(SubSeq(s, 1, Len(s) - 1)) ELSE s
+TrimR(s) == IF s # <<>> /\ Blank(s[Len(s)]) THEN TrimR(SubSeq(s, 1, Len(s) - 1)) ELSE s
 Trim(s)  == TrimR(TrimL(s))
+
+(***************************************************************************)
+(* Content of a JSON string token (the bytes between the quotes): escapes  *)
+(* resolved to UTF-8 bytes.  k = "ok" with the content, "bad" for a        *)
+(* malformed string, "free" for surrogate escapes (not judged).            *)
+(***************************************************************************)
+HexV(c) == IF IsDig(c) THEN c - 48
+           ELSE IF c >= 97 /\ c <= 102 THEN c - 87
+           ELSE IF c >= 65 /\ c <= 70 THEN c - 55 ELSE 99
+Utf8(cp) == IF cp < 128 THEN <<cp>>
+            ELSE IF cp < 2048 THEN <<192 + (cp \div 64), 128 + (cp % 64)>>
+            ELSE <<224 + (cp \div 4096), 128 + ((cp \div 64) % 64), 128 + (cp % 64)>>
+BadStr == [k |-> "bad", s |-> <<>>]
+Pre(b, r) == IF r.k = "ok" THEN [k |-> "ok", s |-> b \o r.s] ELSE r
+RECURSIVE UnescFrom(_, _)
+UnescFrom(s, i) ==
+  IF i > Len(s) THEN [k |-> "ok", s |-> <<>>]
+  ELSE IF s[i] < 32 \/ s[i] = 34 THEN BadStr
+  ELSE IF s[i] # 92 THEN Pre(<<s[i]>>, UnescFrom(s, i + 1))
+  ELSE IF i = Len(s) THEN BadStr
+  ELSE LET c == s[i + 1] IN
+       IF c \in {34, 92, 47} THEN Pre(<<c>>, UnescFrom(s, i + 2))
+       ELSE IF c = 98 THEN Pre(<<8>>, UnescFrom(s, i + 2))
+       ELSE IF c = 102 THEN Pre(<<12>>, UnescFrom(s, i + 2))
+       ELSE IF c = 110 THEN Pre(<<10>>, UnescFrom(s, i + 2))
+       ELSE IF c = 114 THEN Pre(<<13>>, UnescFrom(s, i + 2))
+       ELSE IF c = 116 THEN Pre(<<9>>, UnescFrom(s, i + 2))
+       ELSE IF c = 117 THEN
+         IF i + 5 > Len(s) \/ \E j \in 2..5 : HexV(s[i + j]) > 15 THEN BadStr
+         ELSE LET cp == 4096 * HexV(s[i + 2]) + 256 * HexV(s[i + 3]) + 16 * HexV(s[i + 4]) + HexV(s[i + 5])
+              IN IF cp >= 55296 /\ cp <= 57343 THEN [k |-> "free", s |-> <<>>]
+                 ELSE Pre(Utf8(cp), UnescFrom(s, i + 6))
+       ELSE BadStr
+StrContent(s) ==
+  IF \A i \in 1..Len(s) : s[i] >= 32 /\ s[i] # 34 /\ s[i] # 92 THEN [k |-> "ok", s |-> s]
+  ELSE UnescFrom(s, 1)
 
 None     == [k |-> "none"]                  \* the text denotes no value: decoding must fail
 Free     == [k |-> "free"]                  \* outside what the property pins down
